@@ -859,5 +859,5 @@ func c07Tool(args []string) int {
 }
 
 func init() {
-	register("C07", &Prop{Gen: c07Gen, Run: c07Run, Timeout: 60 * time.Second, Tool: c07Tool})
+	register("C07", &Prop{Gen: c07Gen, Run: c07Run, Timeout: 120 * time.Second, Tool: c07Tool})
 }
